@@ -141,3 +141,74 @@ Definition go_type_ov (ovs : list gov) (eng : engine) (c : catalog)
                    end in
       if isarray then "[]" +++ inner else inner
   end.
+
+(** ** the same with the `rename` map of the settings: StructName consults it first, with the key
+    the caller hands it - for an enum the key is the enum's name, prefixed with "schema_" outside
+    the default schema (postgresql_type.go / result.go buildEnums).  [rn = []] gives the functions
+    above (go_type_ov_r_nil in Proofs/GoGenFacts.v). *)
+Fixpoint assoc_rn (rn : list (string * string)) (k : string) : option string :=
+  match rn with [] => None | (k', v) :: r => if String.eqb k' k then Some v else assoc_rn r k end.
+Definition struct_name_rn (rn : list (string * string)) (name : string) : string :=
+  match assoc_rn rn name with
+  | Some r => if String.eqb r "" then struct_name name else r
+  | None => struct_name name
+  end.
+Definition enum_go_name_r (rn : list (string * string)) (c : catalog) (schema name : string) : string :=
+  if String.eqb schema (cat_default c) then struct_name_rn rn name else struct_name_rn rn (schema +++ "_" +++ name).
+
+Fixpoint pg_scan_types_r (rn : list (string * string)) (c : catalog) (sname : string) (rs rnm : string) (nn : bool) (ts : list typ) : option string :=
+  match ts with
+  | [] => None
+  | Enum n _ _ :: r =>
+      if String.eqb rnm n && String.eqb rs sname then Some (enum_go_name_r rn c sname n)
+      else pg_scan_types_r rn c sname rs rnm nn r
+  | Composite n _ :: r =>
+      if String.eqb rnm n && String.eqb rs sname then Some (if nn then "string" else "sql.NullString")
+      else pg_scan_types_r rn c sname rs rnm nn r
+  end.
+Fixpoint pg_scan_schemas_r (rn : list (string * string)) (c : catalog) (rs rnm : string) (nn : bool) (ss : list schema) : option string :=
+  match ss with
+  | [] => None
+  | s :: r =>
+      if String.eqb (sch_name s) "pg_catalog" then pg_scan_schemas_r rn c rs rnm nn r
+      else match pg_scan_types_r rn c (sch_name s) rs rnm nn (sch_types s) with
+           | Some t => Some t
+           | None => pg_scan_schemas_r rn c rs rnm nn r
+           end
+  end.
+Definition pg_default_r (rn : list (string * string)) (c : catalog) (dt : string) (nn : bool) : string :=
+  let parts := split_on "."%char dt in
+  let rel := match parts with
+             | [n] => Some ("", n)
+             | [s; n] => Some (s, n)
+             | [_; s; n] => Some (s, n)
+             | _ => None
+             end in
+  match rel with
+  | None => "interface{}"
+  | Some (s, n) =>
+      let s := if String.eqb s "" then cat_default c else s in
+      match pg_scan_schemas_r rn c s n nn (cat_schemas c) with
+      | Some t => t
+      | None => "interface{}"
+      end
+  end.
+Definition postgres_type_r (rn : list (string * string)) (c : catalog) (dt : string) (notnull isarray : bool) : string :=
+  let nn := notnull || isarray in
+  match lookup_entry pg_type_table dt with
+  | Some e => entry_type e nn false
+  | None => pg_default_r rn c dt nn
+  end.
+
+(** goType with overrides and renames, PostgreSQL *)
+Definition pg_go_type_ov_r (rn : list (string * string)) (ovs : list gov) (c : catalog)
+           (tbl : option (string * string * string)) (colname dt : string) (notnull isarray : bool) : string :=
+  match column_override ovs (cat_default c) tbl colname with
+  | Some o => gov_gotype o
+  | None =>
+      let inner := match dbtype_override ovs dt (notnull || isarray) with
+                   | Some o => gov_gotype o
+                   | None => postgres_type_r rn c dt notnull isarray
+                   end in
+      if isarray then "[]" +++ inner else inner
+  end.
